@@ -12,8 +12,8 @@ def printCase (c : Case) : IO Unit := do
   s := s ++ s!"ITEM {srcText c.item.toks}\n"
   for seg in c.expand do
     match seg.body with
-    | .toks ts => s := s ++ s!"SEG {seg.label} T\n{canon ts}\n"
-    | .dump ts => s := s ++ s!"SEG {seg.label} DUMP\n{canon ts}\n"
+    | .toks ts => s := s ++ s!"SEG {seg.label} T\n{canon ts.strs}\n"
+    | .dump ts => s := s ++ s!"SEG {seg.label} DUMP\n{canon ts.strs}\n"
     | .err => s := s ++ s!"SEG {seg.label} ERR\n"
   s := s ++ "END\n"
   out.putStr s
